@@ -45,7 +45,8 @@ def attempt(rng, ci, nclients, url_ok):
     """returns (spec, expectation) expectation: 'valid' | 'invalid' | 'free'"""
     spec = {"key": rng.choice([0, 1, 3]), "url": url_ok}
     kind = rng.choice(["valid", "valid", "kind", "sig", "signer", "claim", "chal-other", "chal-literal", "chal-none",
-                       "drop-relay", "dup-challenge-mixed", "url", "url", "time", "time", "extra", "dup-relay"])
+                       "drop-relay", "dup-challenge-mixed", "url", "url", "time", "time", "extra", "dup-relay",
+                       "time-type"])
     exp = "valid"
     if kind == "kind":
         spec["kind"] = rng.choice([22241, 22243, 1, 0, 27235])
@@ -84,6 +85,11 @@ def attempt(rng, ci, nclients, url_ok):
         dt = rng.choice([0, 590, -590, 599, -599, 600, -600, 601, -601, 3600, -3600, 605, -605, 597, -597])
         spec["dt"] = dt
         exp = "valid" if abs(dt) < 598 else ("free" if abs(dt) <= 602 else "invalid")
+    elif kind == "time-type":
+        # not a point in time at all (never 'within ten minutes of now'), or a number in another JSON dress
+        raw = rng.choice(["NaN", "NaN", "Infinity", "-Infinity", "null", "true", "[NOW]", "NOW.5", "\"NOW\"", "1e400", "-0.0"])
+        spec["created_raw"] = raw
+        exp = "free" if raw in ("NOW.5", "\"NOW\"") else "invalid"
     elif kind == "extra":
         spec["extra_tags"] = [["p", "x"], ["relay2", "y"]]
     elif kind == "dup-relay":
@@ -206,6 +212,8 @@ def run(case, sim):
                 exp = "invalid"
             elif kind == "dup-challenge-mixed":
                 exp = "free"
+            elif kind == "time-type":
+                exp = "free" if spec.get("created_raw") in ("NOW.5", "\"NOW\"") else "invalid"
             elif kind == "time":
                 dt = abs(spec.get("dt", 0))
                 exp = "valid" if dt < 598 else ("free" if dt <= 602 else "invalid")
